@@ -180,7 +180,93 @@ def g_numberset_insert_guard(fx):
     return ok, 'NumberSet::insert: sn < base || sn >= base + num_bits => no indexing'
 
 
+def g_submessage_length(fx):
+    b = fx.find('rtps::submessage::Submessage::read_from_buffer')
+    og = Origins(b, summaries=False)
+    P = Pos(b)
+    sites = [(bb, 'term') for bb, t in b.calls() if strip_generics(callee_res(t)).rsplit('::', 1)[-1] == 'split_to']
+    good = [(s_, t_) for s_, t_, cond, lab in switch_edges(b, fx, og) if cond[0] == 'bin' and cond[1] == 'Le' and has_call(cond[3], '::len') and lab is True and
+            term_has(cond[2], lambda x: x[0] == 'bin' and x[1].startswith('Add'))]
+    ok = bool(sites) and bool(good) and all(P.every_path_passes(None, s_, via_edges=good, from_entry=True) for s_ in sites)
+    return ok, 'Submessage::read_from_buffer: header length + declared content length <= buffer.len() before split_to'
+
+
+def const_of_index(ti):
+    """The constants of a constant index term: n, ..n, n.., a..b -> list of const terms; None if not constant."""
+    if ti[0] == 'const':
+        return [ti]
+    if ti[0] == 'agg' and str(ti[1]).startswith(('std::ops::Range', 'core::ops::Range')):
+        if all(x[0] == 'const' for x in ti[2]):
+            return list(ti[2])
+    return None
+
+
+def auto_cindex(fx, tt, h):
+    """K3-cindex (constant index/split into a container whose length the sender decides) is safe when
+    (a) a True edge of `len(container) >= c` (or > / the mirrored forms) dominates the site for every constant c of the index, or
+    (b) the container is the result of split_to(c + n) in the same function and the index is that same c (length = c + n >= c)."""
+    b, bb = h['body'], h['bb']
+    t = b.blocks[bb]['term']
+    og = tt.og(b)
+    tc = og.of_operand(t['args'][0], bb, 'term')
+    ti = og.of_operand(t['args'][1], bb, 'term')
+    cs = const_of_index(ti)
+    if not cs:
+        return None
+    P = Pos(b)
+    edges = list(switch_edges(b, fx, og))
+
+    def len_of_container(x):
+        return x[0] == 'call' and x[1].endswith('::len') and x[2] and x[2][0] == tc
+    okc = 0
+    for c in cs:
+        good = []
+        for s_, t_, cond, lab in edges:
+            if cond[0] != 'bin':
+                continue
+            op, a, bb_ = cond[1], cond[2], cond[3]
+            if len_of_container(a) and bb_ == c and ((op in ('Ge', 'Gt') and lab is True) or (op in ('Lt',) and lab is False)):
+                good.append((s_, t_))
+            if len_of_container(bb_) and a == c and ((op in ('Le', 'Lt') and lab is True) or (op in ('Gt',) and lab is False)):
+                good.append((s_, t_))
+        if good and P.every_path_passes(None, (bb, 'term'), via_edges=good, from_entry=True):
+            okc += 1
+    if okc == len(cs):
+        return 'dominating guard: len(container) >= %s' % ', '.join(term_str(c) for c in cs)
+    if len(cs) == 1 and tc[0] == 'call' and tc[1].endswith('::split_to') and len(tc[2]) == 2:
+        n = tc[2][1]
+        if n[0] == 'field' and n[1] == '0' and n[2][0] == 'bin' and n[2][1] == 'AddWithOverflow' and cs[0] in (n[2][2], n[2][3]):
+            return 'container = split_to(%s + n): at least %s long' % (term_str(cs[0]), term_str(cs[0]))
+        if n[0] == 'bin' and n[1] == 'Add' and cs[0] in (n[2], n[3]):
+            return 'container = split_to(%s + n)' % term_str(cs[0])
+    return None
+
+
+def auto_index_min(fx, tt, h):
+    """K3-index with a sender-influenced index is safe when the index is `..min(_, len(container))` / `0..min(_, len(container))` /
+    `..len(container)`: clamped to the container's own length (the clamp is part of the index expression, so it cannot be bypassed)."""
+    b, bb = h['body'], h['bb']
+    t = b.blocks[bb]['term']
+    if len(t['args']) < 2:
+        return None
+    og = tt.og(b)
+    tc = og.of_operand(t['args'][0], bb, 'term')
+    ti = og.of_operand(t['args'][1], bb, 'term')
+
+    def is_len(x):
+        return x[0] == 'call' and x[1].endswith('::len') and x[2] and x[2][0] == tc
+
+    def clamped(x):
+        return is_len(x) or (x[0] == 'call' and x[1].rsplit('::', 1)[-1] == 'min' and len(x[2]) == 2 and any(is_len(a) for a in x[2]))
+    if ti[0] == 'agg' and str(ti[1]).endswith('ops::RangeTo') and clamped(ti[2][0]):
+        return 'index end clamped to the container length'
+    if ti[0] == 'agg' and str(ti[1]).endswith('ops::Range') and len(ti[2]) == 2 and ti[2][0] == ('const', 'int', 0) and clamped(ti[2][1]):
+        return 'index 0..end with end clamped to the container length'
+    return None
+
+
 NAMED = {
+    'submessage-length': g_submessage_length,
     'numberset-size': g_numberset_size,
     'datafrag-sizes': g_datafrag_sizes,
     'datafrag-startnum': g_datafrag_startnum,
@@ -195,6 +281,9 @@ NAMED = {
 
 # hazard key -> (discharge class, named guard or None, reason)
 DISCHARGE = {
+    'rtps::submessage::Submessage::read_from_buffer/K3-index:split_to#1': ('guard', 'submessage-length', '4 + content_length <= buffer.len()'),
+    'messages::submessages::data::Data::deserialize_data/K3-unwrap:unwrap#1': ('type', None, 'usize -> u64 (buffer.len()) is infallible'),
+    'messages::submessages::data_frag::DataFrag::deserialize/K3-unwrap:unwrap#1': ('type', None, 'usize -> u64 (buffer.len()) is infallible'),
     "<messages::submessages::elements::parameter::Parameter as speedy::Readable<'a, C>>::read_from/K2-alloc:from_elem#1": ('type', None, 'size is a 16-bit wire field (<= 64 KiB)'),
     "<structure::sequence_number::NumberSet<N> as speedy::Readable<'a, C>>::read_from/K2-alloc:with_capacity#1": ('guard', 'numberset-size', 'num_bits <= 256 at this point'),
     "<structure::sequence_number::NumberSetIter<'_, N> as std::iter::DoubleEndedIterator>::next_back/K3-index:index#1": ('review', 'numberset-size', 'rev_at_bit <= num_bits <= 256 and bitmap.len() = (num_bits+31)/32 for parsed sets; C14 R14.4 for local ones'),
@@ -223,6 +312,112 @@ DISCHARGE = {
     'structure::sequence_number::NumberSet::insert/K3-index:index_mut#1': ('guard', 'numberset-insert-guard', 'bit position < num_bits, word < bitmap.len()'),
     'structure::sequence_number::NumberSet::new/K2-alloc:from_elem#1': ('review', 'numberset-window', 'num_bits <= 256 for every caller (from_base_and_set, new_empty)'),
 }
+
+
+BLOCKING = ('mio_extras::channel::SyncSender::send', 'std::sync::mpsc::SyncSender::send', 'std::sync::mpsc::Receiver::recv', 'std::sync::mpsc::Receiver::recv_timeout',
+            'mio_extras::channel::Receiver::recv', 'std::thread::sleep', 'std::thread::JoinHandle::join', 'std::sync::Condvar::wait', 'std::sync::Condvar::wait_timeout',
+            'std::sync::Condvar::wait_while', 'futures::executor::block_on', 'std::thread::park', 'mio::Poll::poll', 'std::sync::Barrier::wait')
+
+
+# one named function per line, with the reason the blocking call in it is a lock wait and not a wait on a peer or the application
+BLOCKING_EXEMPT = {
+    'security::security_plugins::SecurityPluginsHandle::get_plugins':
+        'try_lock() + sleep(100 ms) loop: Mutex::lock() with polling; it waits only for another holder of the plugins mutex (security feature only)',
+}
+
+
+def sets_nonblocking(fx, b, chain_term, before_pos, depth=0):
+    """Is the socket whose provenance is `chain_term` (a term of body b) put in non-blocking mode before `before_pos`?
+    (i) a set_nonblocking(x, true) call in b on every path to before_pos whose receiver x is part of the chain, or
+    (ii) the chain passes through a function of this crate that does (i) for the value it returns."""
+    og = Origins(b)
+    P = Pos(b)
+    for bb, t in b.calls():
+        if callee_res(t).endswith('::set_nonblocking') and len(t['args']) == 2 and og.of_operand(t['args'][1], bb, 'term') == ('const', 'int', 1):
+            recv = og.of_operand(t['args'][0], bb, 'term')
+            if (recv == chain_term or term_has(chain_term, lambda x: x == recv)) and \
+                    (before_pos is None or P.every_path_passes(None, before_pos, via_pos=[(bb, 'term')], from_entry=True)):
+                return 'set_nonblocking(true) in %s' % b.key
+    if depth >= 2:
+        return None
+    for x in term_leaves_calls(chain_term):
+        for cb in fx.by_key.get(norm_path(x[1]), []):
+            if cb.kind not in ('fn', 'assoc_fn'):
+                continue
+            ogc = Origins(cb)
+            # the value the callee returns (inside Ok(..)) and whether every Ok return is preceded by the mode change
+            rets = [(bb, si, st) for bb, si, st in cb.statements() if st['s'] == 'assign' and st['lhs']['l'] == 0 and not st['lhs'].get('p')
+                    and st['rv']['r'] == 'agg' and st['rv'].get('variant') in ('Ok', None)]
+            if not rets:
+                continue
+            good = True
+            for bb, si, st in rets:
+                if not st['rv']['ops']:
+                    good = False
+                    break
+                rt = ogc.of_operand(st['rv']['ops'][0], bb, si)
+                if not sets_nonblocking(fx, cb, rt, (bb, si), depth + 1):
+                    good = False
+            if good:
+                return 'through %s, which sets non-blocking mode on the socket it returns' % cb.key
+    return None
+
+
+def term_leaves_calls(t):
+    out = []
+    def rec(x, d=0):
+        if d > 40 or not isinstance(x, tuple):
+            return
+        if x and x[0] == 'call':
+            out.append(x)
+        for y in x:
+            if isinstance(y, tuple):
+                rec(y, d + 1)
+    rec(t)
+    return out
+
+
+def rule_06_3(rep, fx, tt, cfg):
+    pre = '' if cfg == 'default' else cfg + ':'
+    # (a) no blocking primitive on the receive path
+    n_fn = 0
+    hits = []
+    for k in sorted(tt.reach):
+        for b in fx.by_key.get(k, []):
+            n_fn += 1
+            for bb, t in b.calls():
+                r = strip_generics(callee_res(t))
+                if r in BLOCKING:
+                    if b.key in BLOCKING_EXEMPT and r == 'std::thread::sleep':
+                        rep.ok('R06.3', '%s%s/lock-wait' % (pre, b.key), BLOCKING_EXEMPT[b.key], b.where(bb))
+                        continue
+                    hits.append((b, bb, r))
+    for b, bb, r in hits:
+        rep.violation('R06.3', '%s%s/blocking:%s' % (pre, b.key, r.rsplit('::', 2)[-2] + '::' + r.rsplit('::', 1)[-1]),
+                      '%s calls the blocking primitive %s on the receive path: a peer (or a slow application) can stall the whole participant' % (b.key, r), b.where(bb))
+    # the matcher is alive: the same list must match known blocking calls elsewhere in the crate (Drop impls use SyncSender::send, try_send_timeout sleeps)
+    pos = sum(1 for b in fx.bodies for bb, t in b.calls() if strip_generics(callee_res(t)) in BLOCKING)
+    rep.check(pos >= 5 and n_fn >= 100, 'R06.3', pre + 'no-blocking-primitive', '%d receive-path functions scanned, 0 blocking calls (matcher fires on %d call(s) elsewhere in the crate)' % (n_fn, pos),
+              'the blocking-call matcher no longer recognises the known blocking calls outside the receive path (%d) or the receive path shrank (%d functions): rule would pass vacuously' % (pos, n_fn))
+    # (b) the one socket the receive thread writes to whose peer is drained by the application is non-blocking
+    writers = [b for k in tt.reach for b in fx.by_key.get(k, []) if any(callee_res(t).endswith('::write') or callee_res(t).endswith('::write_all') for bb, t in b.calls())]
+    for b in writers:
+        rep.check(b.key == 'mio_source::PollEventSender::send', 'R06.3', '%s%s/socket-write' % (pre, b.key), 'the only stream write on the receive path is the poll-event notification',
+                  '%s writes to a stream on the receive path; only PollEventSender::send (non-blocking socket) is known to be safe' % b.key, b.where())
+    n = 0
+    for b in fx.bodies:
+        if ' as std::clone::Clone>::clone' in b.key:
+            continue   # a clone shares the Arc of an existing sender
+        for bb, si, st in b.statements():
+            if st['s'] == 'assign' and st['rv']['r'] == 'agg' and st['rv'].get('adt') == 'mio_source::PollEventSender':
+                n += 1
+                og = Origins(b)
+                chain = og.of_operand(st['rv']['ops'][st['rv']['fields'].index('send_mio_socket')], bb, si)
+                why = sets_nonblocking(fx, b, chain, (bb, si))
+                rep.check(bool(why), 'R06.3', '%s%s/sender-nonblocking' % (pre, b.key), why or '',
+                          'the sending end of the poll-event socket pair is not put in non-blocking mode before it goes into PollEventSender: once the application stops draining '
+                          'notifications, PollEventSender::send blocks inside handle_received_packet and the participant stops serving everyone', b.where(bb, si))
+    rep.floor('R06.3', n, 1, 'constructions of PollEventSender')
 
 
 def run_config(rep, fx, cfg, floor=True):
@@ -261,6 +456,21 @@ def run_config(rep, fx, cfg, floor=True):
             n_auto += 1
             rep.ok('R06.1', key, 'poison-only: unwrap of Mutex::lock()', h['where'])
             continue
+        if h['kind'] == 'K3-cindex':
+            why = auto_cindex(fx, tt, h)
+            if why:
+                n_guard += 1
+                rep.ok('R06.1', key, why, h['where'])
+            else:
+                rep.violation('R06.1', key, 'a constant index/split (%s %s) is applied to a buffer whose length the sender decides, without a dominating length check' % (
+                    h['callee'], h['term']), h['where'])
+            continue
+        if h['kind'] == 'K3-index' and key not in DISCHARGE:
+            why = auto_index_min(fx, tt, h)
+            if why:
+                n_guard += 1
+                rep.ok('R06.1', key, why, h['where'])
+                continue
         d = DISCHARGE.get(key)
         if d is None:
             rep.violation('R06.1', key, 'wire-controlled value reaches a %s hazard (%s) that is not discharged by any recognised bound or named guard: %s' % (
@@ -277,10 +487,11 @@ def run_config(rep, fx, cfg, floor=True):
         else:
             n_auto += 1
         rep.ok('R06.1', key, '%s: %s%s' % (cls, why, ' [guard %s]' % gname if gname else ''), h['where'])
+    rule_06_3(rep, fx, tt, cfg)
     # entries of the table whose site disappeared are harmless, but a shrinking table means the enumeration lost sight of them
     missing = [k for k in DISCHARGE if k not in seen and not k.startswith('rtps::fragment_assembler::AssemblyBuffer::new/K2') and not k.startswith('rtps::rtps_writer_proxy::RtpsWriterProxy::irrelevant')]
     if floor:
-        rep.floor('R06.1', len(seen), 28, 'hazard sites on the receive path')
+        rep.floor('R06.1', len(seen), 31, 'hazard sites on the receive path')
     rep.coverage_extra.setdefault('hazards', {})[cfg] = {'total': len(seen), 'type_rule': n_auto, 'guarded': n_guard, 'discharged_by_review': n_review,
                                                         'debug_only_arithmetic_checks': n_arith, 'table_entries_without_site': missing}
 
@@ -294,6 +505,8 @@ def run(rep, facts, tier):
                'CPU / memory "in proportion" as a quantity is not decided beyond the listed hazards')
     rep.rule('R06.1', 'every hazard site reached by a wire-controlled value is discharged (type rule, dominating guard, named guard, reviewed invariant) or is a listed finding; unknown sites are reported')
     rep.rule('R06.2', 'every named guard the discharges rest on exists and dominates what it protects')
+    rep.rule('R06.3', 'the receive path never blocks on the application: no blocking channel/thread primitive is reachable from the receive entry points, the only stream '
+                      'write is the poll-event notification, and the sending end of that socket pair is set non-blocking before use')
     # the two open findings stay in the table as known findings through known_findings.json (they are violations of R06.1)
     run_config(rep, facts['default'], 'default')
     if tier == 'thorough' and 'security' in facts:
